@@ -7,7 +7,7 @@ import functools
 
 import z3
 
-from .values import (B, I, Bound, ClassV, Ext, FiltV, FuncV, NativeFn, Obj, PyRaise, Rec, SeqV, SymList, Unsupported,
+from .values import (B, I, Bound, ClassV, Ext, FiltV, FuncV, HostObj, NativeFn, Obj, PyRaise, Rec, SeqV, SymList, Unsupported,
                      is_num, is_obj, is_sym, is_z, is_zbool, is_zstr, isnone_of, len_of, real_of, str_of, ufunc)
 
 
@@ -204,6 +204,8 @@ def _len(eng, x):
             return eng.call(Bound(f, x), [], {})
         if "__dict_storage__" in x.attrs:
             return len(x.attrs["__dict_storage__"])
+    if isinstance(x, HostObj):
+        return len(x)
     if eng.is_native_concrete(x):
         return eng._concrete(lambda: len(x))
     raise PyRaise(TypeError, ("len",))
@@ -503,6 +505,13 @@ def _int(eng, x=0):
 def _str(eng, x=""):
     if is_zstr(x):
         return x
+    if is_num(x):
+        # str() of a number: uninterpreted text with float(str(x)) == x (assumed of CPython's repr / float round trip)
+        ns = ufunc("numstr", z3.RealSort(), z3.StringSort())
+        fs = ufunc("float_of_str", z3.StringSort(), z3.RealSort())
+        r = eng.to_real(x)
+        eng._fact_once(fs(ns(r)) == r)
+        return ns(r)
     if is_sym(x):
         f = ufunc("str_of_obj", Obj, z3.StringSort())
         return f(eng.box(x))
@@ -542,6 +551,14 @@ def _next(eng, it, *default):
         if it.pos < len(it.items):
             it.pos += 1
             return it.items[it.pos - 1]
+        if default:
+            return default[0]
+        raise PyRaise(StopIteration, ())
+    from .interp import GenList
+    if isinstance(it, GenList):
+        if it.pos < len(it):
+            it.pos += 1
+            return it[it.pos - 1]
         if default:
             return default[0]
         raise PyRaise(StopIteration, ())
